@@ -1,2 +1,20 @@
+-- models (core Lean only)
 import OpfVerif.Model.Heap
+import OpfVerif.Model.HeapSpec
 import OpfVerif.Model.Forest
+import OpfVerif.Model.ForestSpec
+import OpfVerif.Model.CompeteSpec
+import OpfVerif.Model.PrimSpec
+import OpfVerif.Model.Expr
+-- translator output
+import OpfVerif.Gen.Distance
+import OpfVerif.Gen.Registry
+import OpfVerif.Gen.Decorator
+-- property theorems
+import OpfVerif.Props.C01
+import OpfVerif.Props.C02
+import OpfVerif.Props.C03
+import OpfVerif.Props.C05
+import OpfVerif.Model.Lawful
+import OpfVerif.Model.ExecSpec
+import OpfVerif.Lemmas.Lawful
